@@ -4,6 +4,7 @@ from ..ir import call_target, strip_casts
 from ..symexec import SymExec, PState, Lin, Ptr
 from ..tables import base_name
 
+RETRY_INLINED = True
 LEVEL = 'proof'
 
 
